@@ -49,8 +49,18 @@ PROPS = {}
 NOT_APPLICABLE = {}
 
 
+# appended to every check's level text: the workload dimensions shared by all harnesses (DESIGN.md section 8.7)
+WORKLOAD_NOTE = (" Beyond the short exhaustive / random phases every harness has a `scale` phase (inputs and object states of 4 KiB .. 1 MiB and more, lengths and "
+                 "the property's features planted on and next to multiples of the block sizes a chunked implementation would use), runs a share of its cases under a "
+                 "hostile global locale (where the harness enables it), and gets placement diversity from the runtime: input blocks that are not 16-byte aligned and "
+                 "input / object / operator-new blocks re-issued at the address of a released one; evidence counters scale.*, ambient.*, placement.* say what was reached")
+TECHNIQUE_NOTE = "; scale-, ambient-state- and placement-diversified workloads (DESIGN 8.7)"
+
+
 def P(pid, title, harness, level_text, technique, rule, assumptions=(), runs=None, exhaustive=None,
       level="exploration", **kw):
+    level_text = level_text + "." + WORKLOAD_NOTE
+    technique = technique + TECHNIQUE_NOTE
     d = {
         "title": title, "harness": harness, "runs": runs or [ASAN], "level": level,
         "level_text": level_text, "level_note": LEVEL_NOTE, "technique": technique, "rule": rule,
